@@ -9,7 +9,7 @@ EXPLANATION = (
     "always re-parents the operand proven Tag::Var; (R4) bindings are zipped only on the equal-length edge; (R5) "
     "declarations are pre-tagged before the traversal; (R6) a module's tag variables are named by its own locator; (R7) identical tags are short-circuited before occurs() is consulted; (R8) occurs() is existential over nested tags; (R9) constrain() emits every equation of the kind rules (frozen census of 14 equations) with no early exit. Does not decide most-general-unifier correctness or "
     "order/renaming independence of the verdict, which compare results of runs.")
-EXPLANATION += ' Further clauses: (R10) the recursion verdict is a fix-point independent of declaration order and an unresolved tag is never a cut point (shared C09.R3); (R11) innermost-first lookup, i.e. shadowing independent of spelling (shared C08.R1); (R12) VAR-UNIFORM (shared C05.R7). (R13) REDUCE-FIRST - unify() reduces both operands before anything else reads them, in every recursive call; (R14) SCOPE-PAIRING (shared C08.R2).'
+EXPLANATION += ' Further clauses: (R10) the recursion verdict is a fix-point independent of declaration order and an unresolved tag is never a cut point (shared C09.R3); (R11) innermost-first lookup, i.e. shadowing independent of spelling (shared C08.R1); (R12) VAR-UNIFORM (shared C05.R7). (R13) REDUCE-FIRST - unify() reduces both operands before anything else reads them, in every recursive call; (R14) SCOPE-PAIRING (shared C08.R2). (R15) ERROR-CLASS - every error constructed by inference and type checking is InvalidType.'
 ASSUMPTIONS = ["union-find path walking terminates because parents[] only ever links a variable class under another representative (R2,R3)"]
 TECHNIQUE = "static analysis: ADT walk + HIR pattern/recursion coverage + MIR dominance"
 
